@@ -163,6 +163,30 @@ def _own(run, repo, world, mod, c):
                     continue     # some other class's own _data
                 n += 1
                 who = "%s.%s" % (cl.name, fn.name)
+                if who not in allowed[node.attr] and fn.name.startswith(
+                        "_") and not fn.name.startswith("__"):
+                    # a private helper that only the allowed writers call
+                    # (the slice arm of __setitem__ moved into a method of
+                    # its own) writes on their behalf
+                    callers = set()
+                    for m2, mm in repo.modules.items():
+                        for x in ast.walk(mm.tree):
+                            if isinstance(x, ast.Call) and isinstance(
+                                    x.func, ast.Attribute) and \
+                                    x.func.attr == fn.name:
+                                f2 = x
+                                while f2 is not None and not isinstance(
+                                        f2, (ast.FunctionDef,
+                                             ast.AsyncFunctionDef)):
+                                    f2 = getattr(f2, "_parent", None)
+                                c2 = getattr(f2, "_parent", None) \
+                                    if f2 is not None else None
+                                callers.add("%s.%s" % (
+                                    c2.name if isinstance(
+                                        c2, ast.ClassDef) else "?",
+                                    f2.name if f2 is not None else "?"))
+                    if callers and callers <= allowed[node.attr]:
+                        who = sorted(callers)[0]
                 run.ob("R-FRAME-OWN", "%s#%s.%s" % (mname, who, node.attr),
                        who in allowed[node.attr],
                        "%s assigns self.%s of a Frame" % (who, node.attr),
